@@ -147,6 +147,16 @@ class _Reject(Exception):
         self.soft = soft
 
 
+def _tgt(r):
+    """File name a redirect refers to: the literal target, or - for a target FORM (glob, @(...),
+    $VAR, quoted) - the single word it expands to.  A list = the expansion is not exactly one
+    non-empty word (the redirect must be rejected)."""
+    if "words" in r:
+        w = r["words"]
+        return w[0] if len(w) == 1 and w[0] != "" else list(w)
+    return r.get("target")
+
+
 def _stage_plan(st, i, n, cap, pre, mode="final"):
     """Resolve the redirects of one stage.  Returns dict(out=dest, err=dest, infile=name|None,
     soft=bool).  dest = ('pipe',) | ('file', name, mode) | ('default',).  Raises _Reject for a
@@ -155,13 +165,15 @@ def _stage_plan(st, i, n, cap, pre, mode="final"):
     infiles = []
     soft = False
     for r in st.get("redirs", ()):
-        op, tgt = r["op"], r.get("target")
+        op, tgt = r["op"], _tgt(r)
         c = classify(op)
         if c is None:
             raise _Reject(f"malformed operator {op!r}")
         if c in FILE_CLASSES:
             if tgt is None:
                 raise _Reject(f"{op!r} without a target")
+            if isinstance(tgt, list):
+                raise _Reject(f"target of {op!r} expands to {len(tgt)} words {tgt!r} (exactly one file name is required)")
             if "/" in tgt:
                 if pre.get(tgt.split("/")[0]) != "<dir>":
                     raise _Reject(f"directory of target {tgt!r} is missing or not writable")
@@ -232,7 +244,7 @@ def _stage_plan(st, i, n, cap, pre, mode="final"):
         cur = {"out": default_out, "err": ("default-err",)}
         for r in st.get("redirs", ()):
             c = classify(r["op"])
-            tgt = r.get("target")
+            tgt = _tgt(r)
             if c in ("OUT_W", "OUT_A"):
                 cur["out"] = ("file", tgt, c[-1])
             elif c in ("ERR_W", "ERR_A"):
@@ -408,7 +420,8 @@ def _is_clean_reject(case, res, stage):
     if exc is None:
         leaked = _stage_tokens_anywhere(res, stage)
         return False, "no-error" + (":ran" if leaked else ":silent")
-    if exc[0] not in ("XonshError", "SyntaxError"):
+    proper = exc[0] in ("XonshError", "SyntaxError") or (exc[0] == "Exception" and exc[1].startswith("Unsupported redirect"))
+    if not proper:
         return False, f"crash:{exc[0]}"
     leaked = _stage_tokens_anywhere(res, stage)
     if leaked:
@@ -421,7 +434,7 @@ def _write_targets(case):
     for st in case["stages"]:
         for r in st.get("redirs", ()):
             if r.get("target") is not None and classify(r["op"]) not in (None, "IN"):
-                out.add(r["target"])
+                out |= set(r["words"]) if "words" in r else {r["target"]}
     return out
 
 
@@ -585,7 +598,8 @@ def _exp_text(m):
 
 # ------------------------------------------------------------------ the explored space
 
-POSITIONS = {"only": (1, 1), "first2": (1, 2), "last2": (2, 2), "mid3": (2, 3)}
+POSITIONS = {"only": (1, 1), "first2": (1, 2), "last2": (2, 2), "mid3": (2, 3), "first3": (1, 3), "first4": (1, 4), "second4": (2, 4), "third4": (3, 4)}
+PRODUCT_POS = ("only", "first2", "last2", "mid3")
 CAPTURES = ("bare", "![]", "$[]", "$()", "!()", "@$()")
 
 
@@ -621,10 +635,14 @@ def gen_cases(thorough):
 
     # 0. baseline: no redirect at all (pipes, captures and the terminal alone)
     for kind in kinds:
-        for pos in POSITIONS:
+        for pos in PRODUCT_POS:
             for neigh in _neighbour_sets(pos, nkinds):
                 for cap in CAPTURES:
                     add("base", "NONE", "", kind, pos, cap, [], {}, neigh, True)
+    if thorough:  # the 4-stage shapes used by the chain family
+        for k in ("ext", "thr"):
+            for cap in CAPTURES:
+                add("base", "NONE", "", k, "first4", cap, [], {}, (k, k, k), True)
 
     # 1. the full product: spelling x stage kind x position x capture form x target state
     for sp in UNIVERSE:
@@ -636,7 +654,7 @@ def gen_cases(thorough):
             forms.append((sp, True))  # `< input.txt cmd`
         for op, lead in forms:
             for kind in kinds:
-                for pos in POSITIONS:
+                for pos in PRODUCT_POS:
                     for neigh in _neighbour_sets(pos, nkinds):
                         for cap in CAPTURES:
                             if c in FILE_CLASSES:
@@ -722,6 +740,91 @@ def gen_cases(thorough):
                 ]
                 meta = {"family": "docexample", "class": "DOCEX", "spelling": "e>o < | > e>>", "kind": f"{k1}-{k2}", "pos": "both", "t": 1, "documented": True, "neigh": [], "target": "existing" if errs else "missing"}
                 cases.append({"stages": stages, "capture": cap, "pre": {"input": INPUT, "errors": errs, "output": None}, "meta": meta})
+
+    # 6. chains: every single operator class and every ordered pair of classes that is LEGAL on a
+    #    non-last stage (decided by the reference: `o> f e>p`, `e> f` + plain pipe, `a>p`, `e>p e>o` ...)
+    #    on the FIRST and MIDDLE stage of 3-stage pipelines (thorough: also every non-last stage of 4),
+    #    so that what one stage's redirects do to the wiring of every LATER `|` is observed
+    def redirs_for(classes, tag="f"):
+        redirs, pre = [], {}
+        for j, c in enumerate(classes, 1):
+            r = {"op": CANON[c]}
+            if c in FILE_CLASSES:
+                r["target"] = f"{tag}{j}"
+                pre[f"{tag}{j}"] = INPUT if c == "IN" else OLD
+            redirs.append(r)
+        return redirs, pre
+
+    chain_pos = ("first3", "mid3") + (("first4", "second4", "third4") if thorough else ())
+    chain_caps = CAPTURES if thorough else ("bare", "$()", "!()")
+    class_sets = [(c,) for c in CLASSES] + list(itertools.product(CLASSES, repeat=2))
+    for classes in class_sets:
+        for pos in chain_pos:
+            t, n = POSITIONS[pos]
+            redirs, pre = redirs_for(classes)
+            probe = {"stages": _pipeline("ext", pos, redirs, ("ext",) * (n - 1))[0], "capture": "bare", "pre": pre}
+            if "error" in model(probe):
+                continue  # illegal on a non-last stage: rejected while the specs are built, covered by family 2
+            for kind in ("ext", "thr"):
+                for nk in ("ext", "thr") if thorough else ("ext",):
+                    for cap in chain_caps:
+                        redirs, pre = redirs_for(classes)
+                        add("chain", "+".join(classes), " ".join(CANON[c] for c in classes), kind, pos, cap, redirs, pre, (nk,) * (n - 1), True, "existing")
+
+    # 7. redirects on several stages of one 3-stage pipeline at once
+    s1 = [(), ("ERR_W",), ("E2O",), ("A2P",), ("E2P",), ("OUT_W", "E2P"), ("E2P", "OUT_W"), ("IN",)]
+    s2 = [(), ("ERR_W",), ("E2O",), ("A2P",), ("E2P",), ("OUT_W", "E2P")]
+    s3 = [(), ("OUT_W",), ("OUT_A",), ("ERR_W",), ("ALL_W",), ("E2O",)]
+    cross_shapes = (("ext",) * 3, ("thr",) * 3, ("ext", "thr", "ext"), ("thr", "ext", "thr")) if thorough else (("ext",) * 3,)
+    cross_caps = CAPTURES if thorough else ("bare", "$()")
+    for a, b, c3 in itertools.product(s1, s2, s3):
+        if sum(1 for x in (a, b, c3) if x) < 2:
+            continue  # fewer than two redirected stages: families 1 and 6
+        for shp in cross_shapes:
+            for cap in cross_caps:
+                stages, pre = [], {}
+                for j, (k, classes) in enumerate(zip(shp, (a, b, c3)), 1):
+                    redirs, p = redirs_for(classes, tag=f"s{j}f")
+                    pre.update(p)
+                    stages.append({"kind": k, "redirs": redirs})
+                name = "|".join("+".join(x) or "-" for x in (a, b, c3))
+                meta = {"family": "cross", "class": name, "spelling": name, "kind": "-".join(shp), "pos": "multi", "t": 1, "documented": True, "neigh": [], "target": "existing"}
+                cases.append({"stages": stages, "capture": cap, "pre": pre, "meta": meta})
+
+    # 8. target FORMS: the word after the operator is not a literal name but something that expands.
+    #    Exactly one non-empty word = that file; anything else (0 or >= 2 words, '') must be rejected
+    #    and no candidate file may be created or modified.
+    env = {"C07T": "p1", "C07S": "sp ace"}
+    forms = [
+        ("glob0", "g0*.txt", ["g0*.txt"]),  # no match: the pattern itself, one word (as in POSIX shells)
+        ("glob1", "g1*.txt", ["g1a.txt"]),
+        ("glob2", "g2*.txt", ["g2a.txt", "g2b.txt"]),
+        ("rx1", "`g1.*`", ["g1a.txt"]),
+        ("rx2", "`g2.*`", ["g2a.txt", "g2b.txt"]),
+        ("list0", "@([])", []),
+        ("list1", "@(['p1'])", ["p1"]),
+        ("list2", "@(['p1', 'p2'])", ["p1", "p2"]),
+        ("tuple2", "@(('p1', 'p2'))", ["p1", "p2"]),
+        ("str", "@('p1')", ["p1"]),
+        ("emptystr", "@('')", [""]),
+        ("var", "$C07T", ["p1"]),
+        ("varspace", "$C07S", ["sp ace"]),
+        ("squote", "'sp ace'", ["sp ace"]),
+        ("dquote", '"sp ace"', ["sp ace"]),
+    ]
+    for sp in (">", ">>", "e>", "e>>", "a>", "<"):
+        c = classify(sp)
+        content = INPUT if c == "IN" else OLD
+        for fname, text, words in forms:
+            for kind in kinds:
+                for pos in ("only", "first2" if c == "IN" else "last2"):
+                    if kind == "unthr" and pos != "only":
+                        continue
+                    for cap in CAPTURES if thorough else ("bare", "$()"):
+                        pre = {"g1a.txt": content, "g2a.txt": content, "g2b.txt": content, "p1": content, "p2": content, "sp ace": content}
+                        neigh = _neighbour_sets(pos, ("ext",))[0]
+                        add("tform", c, f"{sp} {fname}", kind, pos, cap, [{"op": sp, "target": text, "words": list(words)}], pre, neigh, True, "existing")
+                        cases[-1]["env"] = dict(env)
     return cases
 
 
@@ -874,9 +977,9 @@ def run(ctx):
                 break
         else:
             if kind_of(sig) == "reject":
-                keys[idx] = f"{m['class']}:{m['kind']}:{sig}" + (f":{m['spelling']}" if m["family"] in ("malformed", "nospace") else "")
+                keys[idx] = f"{m['class']}:{m['kind']}:{sig}" + (f":{m['spelling']}" if m["family"] in ("malformed", "nospace", "tform") else "")
             else:
-                keys[idx] = f"{m['class']}:{m['kind']}:{m['pos']}:{case['capture']}:{sig}" + (f":{m['spelling']}" if m["family"] in ("malformed", "nospace") else "")
+                keys[idx] = f"{m['class']}:{m['kind']}:{m['pos']}:{case['capture']}:{sig}" + (f":{m['spelling']}" if m["family"] in ("malformed", "nospace", "tform") else "")
     n_viol_cases = len(keys)
     for idx in sorted(keys, key=lambda i: (len(keys[i]), keys[i], i)):
         case, v = cases[idx], res[idx]["verdict"]
